@@ -227,89 +227,7 @@ func c04(r *core.Report) {
 		}
 		r.Check(ok, "C04-QUIC", core.FnName(rafs)+" ID", p.Pos(rafs.Pos()), "the identity is the fingerprint of the key parsed from this session's peer certificate", "the remote identity is not derived from the key in this session's peer certificate")
 	}
-	if ws != nil && rafs != nil && putSess != nil {
-		// after Dial: putSession and fn(sess) guarded by peerAddr.ID == dst.ID
-		cut := core.CutWhere(func(cond ssa.Value) int {
-			b, ok := cond.(*ssa.BinOp)
-			if !ok || (b.Op != token.EQL && b.Op != token.NEQ) {
-				return 0
-			}
-			fromPeer := func(v ssa.Value) bool {
-				f, base := core.FieldRead(v)
-				if f == nil || f.Name() != "ID" {
-					return false
-				}
-				return core.DerivesFromDirect(base, func(x ssa.Value) bool {
-					c, idx, ok := core.CallResult(x)
-					return ok && idx == 0 && core.IsCallToFn(c.Common(), rafs)
-				})
-			}
-			fromDst := func(v ssa.Value) bool {
-				f, base := core.FieldRead(v)
-				return f != nil && f.Name() == "ID" && (core.Through(base) == ssa.Value(ws.Params[2]) || core.CellOfAddrOrLoad(base, ws.Params[2]))
-			}
-			if !(fromPeer(b.X) && fromDst(b.Y) || fromPeer(b.Y) && fromDst(b.X)) {
-				return 0
-			}
-			if b.Op == token.EQL {
-				return 1
-			}
-			return -1
-		})
-		okG := core.GuardEdges(ws, cut) > 0
-		// sites after the dial
-		var dial ssa.Instruction
-		for _, in := range core.AllInstrs(ws) {
-			if c, ok := in.(*ssa.Call); ok && core.CalleeName(c.Common()) == "(*github.com/quic-go/quic-go.Transport).Dial" {
-				dial = in
-			}
-		}
-		if dial == nil {
-			r.Fail("C04-QUIC: Dial call not found in withSession")
-		} else {
-			reached := core.Reach(ws, dial, cut, nil)
-			bad := ""
-			for in := range reached {
-				c, ok := in.(ssa.CallInstruction)
-				if !ok {
-					continue
-				}
-				if core.IsCallToFn(c.Common(), putSess) {
-					bad = "putSession"
-				}
-				if core.IsParamFuncCall(c.Common()) {
-					bad = "fn(sess)"
-				}
-				if _, isGo := in.(*ssa.Go); isGo && core.IsCallToFn(c.Common(), handleSess) {
-					bad = "handleSession"
-				}
-			}
-			r.Check(okG && bad == "", "C04-QUIC", core.FnName(ws)+" dial identity check", p.Pos(dial.Pos()), "a dialled session is cached and used only when the peer's identity equals the requested one", "after dialling, "+bad+" is reachable without the peer's authenticated identity having been compared with the requested one: a Tell/Ask addressed to X is sent to whoever answered")
-		}
-		// cache lookup key contains the full destination (dst.Key())
-		okKey := false
-		for _, in := range core.AllInstrs(ws) {
-			lk, ok := in.(*ssa.Lookup)
-			if !ok {
-				continue
-			}
-			if f, _ := core.FieldRead(lk.X); f == nil || f.Name() != "sessCache" {
-				continue
-			}
-			okKey = core.DerivesFrom(lk.Index, func(x ssa.Value) bool {
-				c, ok := x.(*ssa.Call)
-				if !ok {
-					return false
-				}
-				sc := core.StaticCallee(c.Common())
-				return sc != nil && sc.Name() == "Key" && (core.Through(c.Call.Args[0]) == ssa.Value(ws.Params[2]) || core.DerivesFromDirect(c.Call.Args[0], func(y ssa.Value) bool { return y == ssa.Value(ws.Params[2]) }))
-			})
-			if !okKey {
-				break
-			}
-		}
-		r.Check(okKey, "C04-QUIC", core.FnName(ws)+" cache key", p.Pos(ws.Pos()), "cached sessions are found under the destination's full text (identity included)", "the session cache is looked up with a key that does not contain the requested identity")
-	}
+	ruleQuicAddressee(r, "C04-QUIC")
 	if serve != nil && putSess != nil {
 		cut := core.CutWhere(core.BoolCallGuard(func(c *ssa.CallCommon) bool { return isFieldFuncCall(c, "allowFunc") }, true))
 		okS := core.GuardEdges(serve, cut) > 0
@@ -541,4 +459,99 @@ func ruleP2PKEAddressee(r *core.Report, ruleID string) {
 		r.Check(ok, ruleID, core.FnName(tell)+" sends through getFullAddr", p.Pos(tell.Pos()), "the payload is sent only on the channel getFullAddr returned without error", "Tell sends on a channel that did not pass the identity check")
 	}
 
+}
+
+// ruleQuicAddressee: quicswarm.withSession sends a Tell/Ask on a session that leads to the requested identity:
+// a dialled session is cached and used only after the peer's authenticated identity was compared with the
+// requested one, and cached sessions are looked up under a key that contains the identity. Shared by C04
+// (attribution) and C11 (the answer comes from the addressed peer's handler, never another's).
+func ruleQuicAddressee(r *core.Report, ruleID string) {
+	p := r.P
+	rafs := needFn(r, "s/quicswarm", "Swarm.remoteAddrFromSession")
+	ws := needFn(r, "s/quicswarm", "Swarm.withSession")
+	putSess := needFn(r, "s/quicswarm", "Swarm.putSession")
+	handleSess := needFn(r, "s/quicswarm", "Swarm.handleSession")
+	if ws != nil && rafs != nil && putSess != nil {
+		// after Dial: putSession and fn(sess) guarded by peerAddr.ID == dst.ID
+		cut := core.CutWhere(func(cond ssa.Value) int {
+			b, ok := cond.(*ssa.BinOp)
+			if !ok || (b.Op != token.EQL && b.Op != token.NEQ) {
+				return 0
+			}
+			fromPeer := func(v ssa.Value) bool {
+				f, base := core.FieldRead(v)
+				if f == nil || f.Name() != "ID" {
+					return false
+				}
+				return core.DerivesFromDirect(base, func(x ssa.Value) bool {
+					c, idx, ok := core.CallResult(x)
+					return ok && idx == 0 && core.IsCallToFn(c.Common(), rafs)
+				})
+			}
+			fromDst := func(v ssa.Value) bool {
+				f, base := core.FieldRead(v)
+				return f != nil && f.Name() == "ID" && (core.Through(base) == ssa.Value(ws.Params[2]) || core.CellOfAddrOrLoad(base, ws.Params[2]))
+			}
+			if !(fromPeer(b.X) && fromDst(b.Y) || fromPeer(b.Y) && fromDst(b.X)) {
+				return 0
+			}
+			if b.Op == token.EQL {
+				return 1
+			}
+			return -1
+		})
+		okG := core.GuardEdges(ws, cut) > 0
+		// sites after the dial
+		var dial ssa.Instruction
+		for _, in := range core.AllInstrs(ws) {
+			if c, ok := in.(*ssa.Call); ok && core.CalleeName(c.Common()) == "(*github.com/quic-go/quic-go.Transport).Dial" {
+				dial = in
+			}
+		}
+		if dial == nil {
+			r.Fail("%s: Dial call not found in withSession", ruleID)
+		} else {
+			reached := core.Reach(ws, dial, cut, nil)
+			bad := ""
+			for in := range reached {
+				c, ok := in.(ssa.CallInstruction)
+				if !ok {
+					continue
+				}
+				if core.IsCallToFn(c.Common(), putSess) {
+					bad = "putSession"
+				}
+				if core.IsParamFuncCall(c.Common()) {
+					bad = "fn(sess)"
+				}
+				if _, isGo := in.(*ssa.Go); isGo && core.IsCallToFn(c.Common(), handleSess) {
+					bad = "handleSession"
+				}
+			}
+			r.Check(okG && bad == "", ruleID, core.FnName(ws)+" dial identity check", p.Pos(dial.Pos()), "a dialled session is cached and used only when the peer's identity equals the requested one", "after dialling, "+bad+" is reachable without the peer's authenticated identity having been compared with the requested one: a Tell/Ask addressed to X is sent to whoever answered")
+		}
+		// cache lookup key contains the full destination (dst.Key())
+		okKey := false
+		for _, in := range core.AllInstrs(ws) {
+			lk, ok := in.(*ssa.Lookup)
+			if !ok {
+				continue
+			}
+			if f, _ := core.FieldRead(lk.X); f == nil || f.Name() != "sessCache" {
+				continue
+			}
+			okKey = core.DerivesFrom(lk.Index, func(x ssa.Value) bool {
+				c, ok := x.(*ssa.Call)
+				if !ok {
+					return false
+				}
+				sc := core.StaticCallee(c.Common())
+				return sc != nil && sc.Name() == "Key" && (core.Through(c.Call.Args[0]) == ssa.Value(ws.Params[2]) || core.DerivesFromDirect(c.Call.Args[0], func(y ssa.Value) bool { return y == ssa.Value(ws.Params[2]) }))
+			})
+			if !okKey {
+				break
+			}
+		}
+		r.Check(okKey, ruleID, core.FnName(ws)+" cache key", p.Pos(ws.Pos()), "cached sessions are found under the destination's full text (identity included)", "the session cache is looked up with a key that does not contain the requested identity")
+	}
 }
